@@ -380,7 +380,7 @@ class Gen:
                 name = r.choice(self.names)
                 if mode == "mapping" and name in used:
                     continue
-                h, cid, dkind, ekind = self.header(HOSTS[[bare(x) for x in HOSTS].index(host)], name)
+                h, cid, dkind, ekind = self.header(host, name)
                 if self.stratum == "clean" and not self._clean_ok(interp, [h], url):
                     continue
                 used.add(name)
